@@ -68,7 +68,73 @@ def tree_typed_roots(eng: Engine, fn: FuncInfo, tree_family: set[str]) -> set[st
     return roots
 
 
+# value-based lookups that are accepted, with the reason
+BY_VALUE_OK = {
+    ("fandango.language.tree:DerivationTree.get_choices_path", "parent.sources.index(current)"):
+        "documented fallback after the lookup by reference failed (a source that was copied)",
+    ("fandango.language.tree:DerivationTree.get_index", "flat.index(target)"):
+        "public query whose contract is 'first structurally equal node of the flattened tree'",
+}
+
+
+def lookup_by_reference(chk: Check, eng: Engine, rule: str) -> None:
+    """Tree equality is structural (hash equality), so `list.index(x)`, `list.remove(x)` and `x in list` on
+    a children/sources list find the first *equal* node, not the node itself.  Positions of nodes
+    must be looked up with index_by_reference."""
+    n_ref = 0
+    for f in eng.ix.all_functions:
+        if not f.module.startswith(("fandango.language.tree", "fandango.constraints", "fandango.evolution", "fandango.language.grammar.grammar", "fandango.language.search")):
+            continue
+        tenv = None
+        kid_locals = set()
+        for n in walk_local(f.node):
+            if isinstance(n, ast.Assign) and len(n.targets) == 1 and isinstance(n.targets[0], ast.Name) and isinstance(n.value, ast.Attribute) \
+                    and n.value.attr in ("children", "_children", "sources", "_sources"):
+                kid_locals.add(n.targets[0].id)
+        for n in walk_local(f.node):
+            if isinstance(n, ast.Call) and call_name(n) == "index_by_reference":
+                n_ref += 1
+            recv = arg = None
+            how = ""
+            if isinstance(n, ast.Call) and isinstance(n.func, ast.Attribute) and n.func.attr in ("index", "remove", "count") and len(n.args) >= 1:
+                recv, arg, how = n.func.value, n.args[0], n.func.attr
+            elif isinstance(n, ast.Compare) and len(n.ops) == 1 and isinstance(n.ops[0], (ast.In, ast.NotIn)):
+                recv, arg, how = n.comparators[0], n.left, "in"
+            if recv is None:
+                continue
+            is_kids = (isinstance(recv, ast.Attribute) and recv.attr in ("children", "_children")) or (isinstance(recv, ast.Name) and recv.id in kid_locals)
+            is_flat = isinstance(recv, ast.Name) and recv.id in ("flat",)
+            is_src = isinstance(recv, ast.Attribute) and recv.attr in ("sources", "_sources")
+            if not (is_kids or is_src or is_flat):
+                continue
+            if tenv is None:
+                tenv = eng.env(f)
+            aty = tenv.type_of(arg)
+            if aty and not any(t.endswith(":DerivationTree") or t.endswith("Tree") for t in aty):
+                continue
+            if not aty and not (isinstance(arg, ast.Name) or isinstance(arg, ast.Attribute)):
+                continue
+            key = (f.fq, short(n if how != "in" else n, 60))
+            if how == "in":
+                # membership is a yes/no question: structural equality can only confuse equal siblings, which cannot change the answer for a
+                # node that is a member (the uses walk from a node to its own parent); positions are what must be found by reference
+                chk.ok(rule, f.fq, n.lineno, f"`{short(n, 60)}`: membership test (yes/no, position-free)", nontrivial=False)
+                continue
+            if key in BY_VALUE_OK:
+                chk.ok(rule, f.fq, n.lineno, f"`{short(n, 60)}` by value accepted: {BY_VALUE_OK[key]}", nontrivial=False)
+                continue
+            chk.bad(rule, eng.relfile(f), n.lineno, f.fq, f"`{short(n, 70)}` looks a node up by structural equality ({how})",
+                    "two equal subtrees under one parent are indistinguishable for ==: the first equal sibling is found instead of the node itself, so an "
+                    "insertion / deletion / path is computed for the wrong position (the repaired tree is no longer a derivation; edits hit another node)",
+                    keyparts=f"by-value|{how}|{short(recv, 30)}")
+    if n_ref < 4:
+        raise AnalysisError(f"only {n_ref} index_by_reference call sites found")
+    chk.ok(rule, "fandango.*", 0, f"{n_ref} position lookups use index_by_reference")
+
+
 def run(chk: Check, eng: Engine) -> None:
+    chk.rule("R10-e", "positions of nodes in children/sources lists are looked up by reference, never by structural equality (index/remove/in)", floor=2)
+    lookup_by_reference(chk, eng, "R10-e")
     chk.rule("R10-a", "read-only accessors (tree accessors, selector searches, containers) have no structure-write effect on borrowed trees", floor=60)
     chk.rule("R10-b", "operators (mutation, crossover, repair, replace, copying split/prefix) have no structure-write effect on their input trees", floor=8)
     chk.rule("R10-c", "every write of a hashed field is followed by invalidate_hash(); identity fields are exactly symbol/sender/recipient/children; "
@@ -440,6 +506,8 @@ _MU = "src/fandango/evolution/mutation.py"
 _RB = "src/fandango/constraints/repetition_bounds.py"
 _S = "src/fandango/language/search.py"
 MUTANTS = [
+    M("insert-position-by-value", _RB, "        index = index_by_reference(tree, self._ending_rep_tree)\n", "        index = tree.children.index(self._ending_rep_tree) if self._ending_rep_tree in tree.children else None\n", "R10-e"),
+    M("split-end-by-value", _T, "        me_idx = index_by_reference(self.parent.children, self)\n", "        me_idx = self.parent.children.index(self)\n", "R10-e"),
     M("slice-adopts-children", _T, "    def set_children(self, children: list[DerivationTree]) -> None:\n        # A slice is a view on nodes that belong to another tree: it lists the selected\n        # nodes but must not adopt them (their parent stays the node they were taken from).\n        self._children = children\n        self.invalidate_hash()\n",
       "", "R10-a"),
     M("find-direct-marks-readonly", _T, "    def find_direct_trees(self, symbol: NonTerminal) -> list[\"DerivationTree\"]:\n        return [",
